@@ -57,7 +57,7 @@ ASSUMPTIONS = ['bystander outcome = started / failed / canceled / waiting at '
                'the end of the settled history, and target_state/exit code at '
                'the executor hand-over']
 SHARDS   = {'quick': 16, 'thorough': 16}
-TIMEOUT  = {'quick': 300, 'thorough': 3000}
+TIMEOUT  = {'quick': 600, 'thorough': 5400}
 REQUIRED = {'named_checked': 300, 'bystanders_compared': 1000,
             'set:cancel_points': 6, 'exec_named_checked': 100}
 
